@@ -126,16 +126,16 @@ def exact_instances(tier):
     return out
 
 
-UNI_RULES = [(r"skip_search", 300)]
+UNI_RULES = [(r"skip_search", 80)]
 
 
 def uni_instances(tier):
     out = []
-    U = lambda h: max(h + 2, 13)   # binary search over the 1454-entry folding table: 11 iterations
+    U = lambda h: max(h + 2, 7)
     A = ["C01", "C02", "C03", "C04", "C10"]
     def add(name, h, expr, props, bounds):
-        bounds = dict(bounds); bounds["repr"] = bounds.get("repr", "code points"); bounds["alphabet"] = "every scalar below U+2100"
-        out.append(_with_rules(Inst(name, U(h), expr, props, bounds, "matcher_uni"), UNI_RULES))
+        bounds = dict(bounds); bounds["repr"] = bounds.get("repr", "code points"); bounds["alphabet"] = "Latin-1 (U+0000..U+00FF without U+00B5); leaf character maps = models proved equal to the real ones on that domain"
+        out.append(Inst(name, U(h), expr, props, bounds, "matcher_uni"))
     q = tier == "quick"
     # P'
     for h, n, na in ([(4, 2, False), (4, 2, True)] if q else [(h, n, na) for h in range(3, 7) for n in range(2, 4) if n < h for na in (False, True)]):
@@ -176,8 +176,23 @@ def uni_instances(tier):
     for K, h, n, g in ri:
         nm = "repr_%s_h%d_n%d" % ("greedy" if g else ("fuzzy" if K == "Fuzzy1" else K.lower()), h, n)
         o = Inst(nm, max(h + 2, 7), "repr_independence::<%d, %d>(Kind::%s, %s)" % (h, n, K, str(g).lower()), ["C01", "C03", "C10"],
-                 {"H": h, "N": n, "entry": nm, "repr": "ASCII haystack x (bytes | code points) needle"}, "matcher_uni")
+                 {"H": h, "N": n, "entry": nm, "repr": "ASCII haystack x (bytes | code points) needle"}, "matcher_repr")
         out.append(o)
+    m = _with_rules(Inst("latin1_model_agrees_h", 13, None, ["C01", "C02", "C03", "C04", "C05", "C10"],
+                         {"domain": "every scalar below U+0100 except U+00B5", "purpose": "stub models == real leaf functions"}, None), [(r"skip_search", 12)])
+    out.append(m)
+    return out
+
+
+def pattern_instances(tier):
+    out = []
+    Ls = [1, 2, 3] if tier == "quick" else [1, 2, 3, 4]
+    for l in Ls:
+        out.append(Inst("atom_parse_ascii_l%d" % l, 12, "atom_parse_ascii::<%d>()" % l, ["C14"],
+                        {"L": l, "alphabet": "all 128 ASCII values", "case": "symbolic", "normalization": "symbolic"}, "matcher_pattern"))
+    for l in Ls[1:]:
+        out.append(Inst("atom_new_ascii_l%d" % l, 12, "atom_new_ascii::<%d>()" % l, ["C14"],
+                        {"L": l, "alphabet": "all 128 ASCII values", "case": "symbolic", "normalization": "symbolic"}, "matcher_pattern"))
     return out
 
 
@@ -186,10 +201,10 @@ def chars_instances(tier):
     return [
         Inst("chars_fold_reference", 16, None, ["C16"], B, None),
         Inst("chars_normalize_reference", 16, None, ["C16"], B, None),
-        _with_rules(Inst("chars_coherence_norm", 13, None, ["C16"], B, None), [(r"skip_search", 300)]),
+        Inst("chars_coherence_norm", 13, None, ["C16"], dict(B, std_unicode_predicates="uninterpreted functions (exact on ASCII)"), None),
         Inst("chars_coherence_compose", 13, None, ["C16"], B, None),
-        _with_rules(Inst("chars_coherence_class", 13, None, ["C16"], B, None), [(r"skip_search", 300)]),
-        _with_rules(Inst("chars_coherence_ascii", 13, None, ["C16"], {"domain": "all 128 ASCII values", "config": "symbolic"}, None), [(r"skip_search", 300)]),
+        Inst("chars_coherence_class", 13, None, ["C16"], dict(B, std_unicode_predicates="uninterpreted functions (exact on ASCII)"), None),
+        _with_rules(Inst("chars_coherence_ascii", 13, None, ["C16"], {"domain": "all 128 ASCII values", "config": "symbolic"}, None), [(r"skip_search", 20)]),
     ]
 
 
@@ -203,6 +218,8 @@ FAMILIES = {
     "chars": chars_instances,
     "matcher_exact": exact_instances,
     "matcher_uni": uni_instances,
+    "matcher_pattern": pattern_instances,
+    "matcher_repr": lambda tier: [],
 }
 
 
@@ -216,9 +233,11 @@ def write_gen(sc, tier, extra=()):
             if not any(j.name == i.name for j in fams[i.family]):
                 fams[i.family].append(i)
     for fam, insts in fams.items():
-        sc.write_gen(fam + ".rs", gen_text(insts))
-    txt, meta = ucd_ref.rust_tables(open(sc.repo + "/matcher/src/chars/normalize.rs").read())
+        sc.write_gen(fam + ".rs", gen_text(insts, "harnesses_latin1" if fam == "matcher_uni" else "harnesses"))
+    src = open(sc.repo + "/matcher/src/chars/normalize.rs").read()
+    txt, meta = ucd_ref.rust_tables(src)
     sc.write_gen("chars_ref.rs", txt)
+    sc.write_gen("latin1_model.rs", ucd_ref.latin1_model(src))
     return meta
 
 
@@ -229,8 +248,8 @@ def all_instances(tier):
     return out
 
 
-def gen_text(insts):
-    lines = ["harnesses! {"]
+def gen_text(insts, macro="harnesses"):
+    lines = [macro + "! {"]
     for i in insts:
         lines.append("    %s [%d] => %s;" % (i.name, i.unwind, i.expr))
     lines.append("}")
